@@ -153,7 +153,19 @@ func (g *c06Gen) genFunc(i int) {
 		zeros = append(zeros, z)
 	}
 	fmt.Fprintf(&g.b, "if §budget--; §budget < 0 { return %s }\n", strings.Join(zeros, ", "))
-	fmt.Fprintf(&g.b, "§depth++\nif §depth > 40 { §depth--; panic(\"too deep\") }\ndefer func() { §depth-- }()\n")
+	// depth guard in three spellings: a deferred closure (the frame is then "used by a closure" and never pooled),
+	// a deferred named function (frame pooled, executor with defer support), or none (frame pooled, plain executor;
+	// the call budget alone bounds the recursion)
+	switch g.rng.Intn(4) {
+	case 0, 1:
+		fmt.Fprintf(&g.b, "§depth++\nif §depth > 40 { §depth--; panic(\"too deep\") }\ndefer func() { §depth-- }()\n")
+		g.feat["frame-with-deferred-closure"]++
+	case 2:
+		fmt.Fprintf(&g.b, "§depth++\nif §depth > 40 { §depth--; panic(\"too deep\") }\ndefer §decDepth()\n")
+		g.feat["frame-with-deferred-named-func"]++
+	default:
+		g.feat["frame-without-defer"]++
+	}
 	if f.variad {
 		// not vs itself: with no variadic arguments the interpreter passes an empty non-nil slice (known finding)
 		fmt.Fprintf(&g.b, "rec(%d, len(vs), append([]int{7}, vs...))\n", g.t())
@@ -174,8 +186,18 @@ func (g *c06Gen) genFunc(i int) {
 			k := g.k()
 			if vs := scope[k.T]; len(vs) > 0 && (k.T != "[]int") {
 				v := vs[r.Intn(len(vs))]
+				// the address is taken 0-3 block scopes below the variable; every block declares a local of its own,
+				// so that it gets its own frame and the variable is reached through 0-3 Outer links
+				depth := r.Intn(4)
+				for d := 1; d <= depth; d++ {
+					fmt.Fprintf(&g.b, "if §depth >= 0 {\nblk%d := %d\n_ = blk%d\n", d, r.Intn(9), d)
+				}
 				fmt.Fprintf(&g.b, "§ptrs = append(§ptrs, &%s)\n", v)
+				for d := 1; d <= depth; d++ {
+					g.b.WriteString("}\n")
+				}
 				g.feat["escape-pointer/"+k.T]++
+				g.feat[fmt.Sprintf("escape-pointer-from-block-depth-%d", depth)]++
 			}
 		case 1: // escaping closure capturing locals / params
 			k := g.k()
@@ -274,7 +296,7 @@ func c06Suffix(k *c06Kind) string {
 func c06Prog(id int, rng *rand.Rand, feat map[string]int) *Prog {
 	g := &c06Gen{rng: rng, feat: feat}
 	g.b.WriteString("type §S struct { N int; T string }\nfunc (s §S) Add(n int) int { return s.N + n }\nfunc (s *§S) Inc() int { s.N++; return s.N }\n")
-	g.b.WriteString("var §depth, §budget int\nvar §ptrs []interface{}\nvar §fns []func() interface{}\n")
+	g.b.WriteString("var §depth, §budget int\nvar §ptrs []interface{}\nvar §fns []func() interface{}\nfunc §decDepth() { §depth-- }\n")
 	g.b.WriteString("func §show(v ...interface{}) { rec(7000, v...) }\n")
 	g.b.WriteString("func §cat(a, b string) string {\ns := a + \"|\" + b\nif len(s) > 24 { s = s[len(s)-24:] }\nreturn s\n}\n")
 	g.b.WriteString("func §app(a, b []int) []int {\nr := append(append([]int{}, a...), b...)\nif len(r) > 8 { r = r[:8] }\nreturn r\n}\n")
@@ -330,6 +352,12 @@ func checkC06(r *fw.Run) {
 		q.Cell = "calls-poisoned"
 		q.Mode = map[string]string{"poison": "1"}
 		progs = append(progs, &q)
+	}
+	// sole argument that has a "comma, ok" form (repaired defect C06-sole-arg-commaok), seeded values
+	for i := 0; i < r.Pick(12, 200); i++ {
+		a, b := rng.Intn(100), rng.Intn(100)
+		src := fmt.Sprintf("func §f(y int) int { return y + %d }\nfunc §g(s string) string { return s + \"!\" }\nfunc §P() {\nm := map[string]int{\"k\": %d}\nch := make(chan int, 2)\nch <- %d\nch <- %d\nvar e interface{} = %d\nvar es interface{} = \"s\"\nh := func(v int) int { return v * 2 }\nrec(1, §f(m[\"k\"]), §f(m[\"zz\"]), §f(<-ch), §f((<-ch)), §f(e.(int)), §g(es.(string)), h(m[\"k\"]), h(e.(int)))\n}\n", a, b, a, b, a+b)
+		progs = append(progs, &Prog{ID: fmt.Sprintf("c06-solearg-%d", i), Src: src, Cell: "sole-argument-commaok-forms"})
 	}
 	r.Extra("features_generated", feat)
 	e1Run(r, progs, o)
